@@ -21,17 +21,26 @@ pub struct Screened {
     pub easter_exprs: Vec<String>,
     pub excluded: Vec<(String, String)>,
     pub countries: Vec<String>,
+    /// pairs of places ~20 m apart on opposite sides of a time-zone border (1e-4 degrees), found by
+    /// walking along lines between cities with the library's own zone lookup
+    pub border_pairs: Vec<((i32, i32), (i32, i32))>,
 }
 
 pub struct Pools {
     pub exprs: Vec<String>,
     pub holiday_exprs: Vec<String>,
     pub easter_exprs: Vec<String>,
+    pub sun_exprs: Vec<String>,
     pub invalid_exprs: Vec<String>,
     pub excluded: Vec<(String, String)>,
     pub countries: Vec<String>,
     pub zones: Vec<&'static str>,
     pub coords: Vec<(i32, i32)>,
+    /// coordinates used in evaluation contexts: |latitude| <= 60 degrees (beyond that the sun may not
+    /// rise or set for months and event-based expressions make the library scan for a long time --
+    /// a bounded-work matter, not a purity matter)
+    pub sun_coords: Vec<(i32, i32)>,
+    pub border_pairs: Vec<((i32, i32), (i32, i32))>,
     pub instants: Vec<i64>,
     pub data: DataFiles,
 }
@@ -87,6 +96,15 @@ const EASTER_EXPRS: &[&str] = &[
     "Mo-Sa 09:00-19:00; easter off",
 ];
 
+const SUN_EXPRS: &[&str] = &[
+    "sunrise-sunset",
+    "dawn-dusk",
+    "(sunrise+01:00)-(sunset-00:30)",
+    "sunrise-12:00; 14:00-sunset unknown",
+    "Mo-Su (dawn-00:30)-10:00, 18:00-(dusk+00:30)",
+    "sunset-sunrise",
+];
+
 const INVALID: &[&str] = &["", "Mo-Fr 25:00-26:00", "not a valid expression", "Mo-Fr 09:00-17:00;;", "\"unbalanced", "Jan 32 10:00-12:00", "week 54 Mo 10:00-12:00"];
 
 const ZONES: &[&str] = &["Europe/Paris", "America/New_York", "Asia/Kolkata", "Australia/Lord_Howe", "Pacific/Apia", "UTC", "America/St_Johns", "Asia/Tokyo"];
@@ -107,6 +125,31 @@ const COORDS: &[(i32, i32)] = &[
     (525200, 134050),    // Berlin
     (-154, 1799999),     // antimeridian, ocean
 ];
+
+/// Pairs of places ~30 m apart on opposite sides of a time-zone border (1e-4 degrees). They were found
+/// once, on the unchanged tree, by walking along lines between cities (Madrid-Lisbon, Berlin-Warsaw,
+/// Paris-Brussels, Vienna-Bratislava, Detroit-Chicago, Geneva-Lyon, Dallas-El Paso, Delhi-Kathmandu,
+/// Santiago-Mendoza, Singapore-Johor Bahru) with the zone lookup and bisecting every change. They are
+/// constants on purpose: computing them with the library under test would make the pool depend on the
+/// very behaviour being checked (a change that caches lookups per grid cell moves the "borders" it finds).
+const BORDER_PAIRS: &[((i32, i32), (i32, i32))] = &[
+    ((393051, -72698), (393050, -72702)),
+    ((524740, 146117), (524739, 146122)),
+    ((503516, 38516), (503519, 38518)),
+    ((481570, 170040), (481570, 170042)),
+    ((419239, -871668), (419238, -871674)),
+    ((461442, 59644), (461441, 59641)),
+    ((321202, -1030645), (321202, -1030648)),
+    ((319260, -1049183), (319260, -1049186)),
+    ((281611, 813071), (281610, 813076)),
+    ((281598, 813187), (281597, 813192)),
+    ((-332541, -700343), (-332539, -700338)),
+    ((14509, 1037647), (14510, 1037647)),
+];
+
+fn find_border_pairs() -> Vec<((i32, i32), (i32, i32))> {
+    BORDER_PAIRS.to_vec()
+}
 
 pub const MAX_SCHEDULE_CALLS: u64 = 6000;
 
@@ -175,7 +218,7 @@ impl Pools {
         let easter_exprs = screen(EASTER_EXPRS.iter().map(|s| s.to_string()).collect(), Ctx::Default);
         let mut countries: Vec<String> = Country::ALL.iter().map(|c| c.iso_code().to_string()).collect();
         countries.sort();
-        Screened { exprs, holiday_exprs, easter_exprs, excluded, countries }
+        Screened { exprs, holiday_exprs, easter_exprs, excluded, countries, border_pairs: find_border_pairs() }
     }
 
     pub fn from_screened(s: Screened) -> Pools {
@@ -183,11 +226,14 @@ impl Pools {
             exprs: s.exprs,
             holiday_exprs: s.holiday_exprs,
             easter_exprs: s.easter_exprs,
+            sun_exprs: SUN_EXPRS.iter().map(|s| s.to_string()).collect(),
             invalid_exprs: INVALID.iter().map(|s| s.to_string()).collect(),
             excluded: s.excluded,
             countries: s.countries,
             zones: ZONES.to_vec(),
             coords: COORDS.to_vec(),
+            sun_coords: COORDS.iter().copied().filter(|c| c.0.abs() <= 600_000).collect(),
+            border_pairs: s.border_pairs,
             instants: instants(),
             data: DataFiles::load(),
         }
